@@ -26,6 +26,12 @@ CHECKS['C12'] = ('runtime oracle: long double / __float128 evaluation of the def
 CHECKS['C03'] = ('runtime differential monitor: the same operation table evaluated on aligned (SIMD) and packed (generic C++) operands built from identical bits inside GLM_FORCE_INTRINSICS builds at each x86 ISA level, compared under the class the statement gives (identical value / k*u*S / 2^-11 for lowp); hidden-lane poisoning',
          'About 145 operations (vec1-4 operators and functions for float/double/int/uint, matrices, quaternions, conversions) are executed in 8 (quick) to 35 (thorough) builds covering SSE2..AVX2(+FMA), aligned highp/mediump/lowp, default-aligned and WXYZ configurations; every aligned result is compared with the packed (pure-code) result on the same inputs, including adversarial hidden lanes of aligned vec3, ties, |x|>=2^23, refract/faceforward branch straddlers.',
          TRUST + ' Reference = packed_highp code path in the same build (the code GLM_FORCE_PURE compiles); NEON not executable here.', 'DESIGN.md 7/C03')
+CHECKS['C11'] = ('runtime oracle over complete enumeration (2^32 floats for unary functions) plus lattice^n and random n-ary inputs: bit-level references for the rounding family, case analyses for selection functions, MPFR for constants; pure, clang, -O0 and SIMD builds',
+         'Every float pattern goes through the hand-rolled unary functions (roundEven, fract, sign, iround, uround, mirrorRepeat) in the quick tier and through all unary functions in the thorough tier; doubles and n-ary functions are driven by the special-value lattice (all pairs/triples) and random tuples; every constant of ext/scalar_constants and gtc/constants is compared with its MPFR value rounded to float and double.',
+         TRUST + ' Signalling NaNs are outside the domain (GLSL has none; libm fmin/fmax treat them specially).', 'DESIGN.md 7/C11')
+CHECKS['C19'] = ('runtime oracle: monotonicity along increasing sweeps, fixed points, range, alpha, round trips against derived bounds; complete enumeration of all 2^24 8-bit RGB triples for the integer YCoCg-R pair',
+         'sRGB<->linear (default, explicit gamma, lowp approximation; vec3/vec4; float/double) on dense grids, threshold straddlers and (thorough) every float in [0,1]; HSV and YCoCg round trips on the RGB cube with sector-boundary hues; the integer YCoCg-R pair exhaustively for 8 element types; saturation/luminosity against the documented weights.',
+         TRUST, 'DESIGN.md 7/C19')
 REASONS = {}
 
 checks = []
